@@ -78,7 +78,7 @@ def run(ctx, replay=None):
         for m in re.finditer(r"<(\w+) line \d+, col \d+ to line \d+, col \d+ of module Repo(?: \([\d ]+\))?>: (\d+):(\d+)", out):
             acts[m.group(1)] = max(acts.get(m.group(1), 0), int(m.group(3)))
     acts["WriteOKAct"] = acts.get("Step", 0)      # WriteOKAct is the bare Step([name |-> "WriteOK"]) disjunct
-    expected = ["EditAct", "TouchAct", "DeleteAct", "TruncateAct", "StripKeyAct", "ReplaceAct", "MakeCsrAct", "EditProfileAct", "ExpireAct", "SetIssuerAct", "RemoveConfigAct", "AddConfigAct", "StartRunAct", "WriteOKAct", "SignFailAct",
+    expected = ["EditAct", "TouchAct", "DeleteAct", "TruncateAct", "StripKeyAct", "ResaveAct", "ReplaceAct", "MakeCsrAct", "EditProfileAct", "ExpireAct", "SetIssuerAct", "RemoveConfigAct", "AddConfigAct", "StartRunAct", "WriteOKAct", "SignFailAct",
                 "WriteErrAct", "WriteTornAct", "DieAct"]
     missing = [a for a in expected if acts.get(a, 0) == 0]
     if missing:
